@@ -196,7 +196,8 @@ def replay(ctx, gridmod, hist, dt, n, tmproot):
 
 
 def spec_to_code(ctx, gridmod):
-    res = ctx.tlc("GridStoreDump", "MC_GridStore_%s.cfg" % ctx.tier, timeout=3000, heap="8g")
+    res = ctx.tlc("GridStoreDump", "MC_GridStore_%s.cfg" % ctx.tier, timeout=3000, heap="8g", coverage=True)
+    ctx.require_actions(res, ["Mutate", "Save", "WriteForeign", "Load", "DictRoundTrip", "Clone", "Clip"], "GridStore")
     if res.violated:
         raise Machinery("GridStore.tla violates its contract: %s" % res.violated)
     tmproot = tempfile.mkdtemp(prefix="verif_c13_", dir=str(ctx.workfile("x").parent))
@@ -232,7 +233,8 @@ def catchment_roundtrip(ctx, gridmod, ncases):
     while done < ncases and tries < 30 * ncases:
         tries += 1
         nr, nc = int(rng.integers(2, 7)), int(rng.integers(2, 7))
-        fd = [int(rng.choice([1, 2, 4, 4, 2, 8, 16, 0])) for _ in range(nr * nc)]
+        # flow mostly towards the bottom-right (odd tries) or towards the top-left corner, cell 0 (even tries)
+        fd = [int(rng.choice([1, 2, 4, 4, 2, 8, 16, 0] if tries % 2 else [16, 32, 64, 64, 32, 128, 1, 0])) for _ in range(nr * nc)]
         flow = make_grid(gridmod.Grid, nr, nc, fd)
         cat = gridmod.Catchment("cat%d" % tries, flow)
         # the catchment works on its own copy of the flow direction grid
@@ -241,7 +243,7 @@ def catchment_roundtrip(ctx, gridmod, ncases):
         if not np.array_equal(flow.data, f0):
             ctx.violation("Catchment:flowdir-shared", "writing to catchment.flowdir changed the caller's grid", {"nr": nr, "nc": nc})
         cat.flowdir.data[0, 0] = f0[0, 0]
-        o = int(rng.integers(0, nr * nc))
+        o = [int(rng.integers(0, nr * nc)), 0, nr * nc - 1, int(rng.integers(0, nr * nc))][tries % 4]      # corner cells (0 and N-1) as outlets too
         inl = None if rng.random() < 0.5 else sorted(set(int(v) for v in rng.integers(0, nr * nc, size=int(rng.integers(1, 3)))))
         try:
             cat.delineate_area(o, inl, nval=nr * nc + 2)
@@ -258,8 +260,12 @@ def catchment_roundtrip(ctx, gridmod, ncases):
             continue
         done += 1
         ctx.count(case, True)
-        if int(c2.idxcell_outlet) != o:
-            ctx.violation("Catchment:dict:outlet", "outlet %s" % c2.idxcell_outlet, case)
+        try:
+            got_o = int(c2.idxcell_outlet)
+        except Exception as e:
+            got_o = repr(e)
+        if got_o != o:
+            ctx.violation("Catchment:dict:outlet", "outlet %s" % got_o, case)
         got_inl = None if c2.idxinlets is None else [int(v) for v in c2.idxinlets]
         if got_inl != (None if inl is None else [int(v) for v in inl]):
             ctx.violation("Catchment:dict:inlets", "inlets %s expected %s" % (got_inl, inl), case)
